@@ -472,13 +472,15 @@ Fixpoint nodup_keys {B} (l : list (N * B)) : bool :=
   end.
 
 (** The inputs the property quantifies over: a sample size of zero only with no
-    samples, no u128/u64 overflow of the totals, one allocation entry per key. *)
+    samples, no u128/u64 overflow of the totals, one allocation entry per key,
+    counter values that fit [MaxCountUInt = u64]. *)
 Definition in_domain (inp : inputs) : bool :=
   (negb (in_size inp =? 0) || (length (in_durs inp) =? 0)%nat) &&
   (sum_list (in_durs inp) <? 2 ^ 128) &&
   (in_size inp * N.of_nat (length (in_durs inp)) <? 2 ^ 64) &&
   (in_size inp <? 2 ^ 32) &&
-  nodup_keys (in_allocs inp).
+  nodup_keys (in_allocs inp) &&
+  forallb (fun ci => forallb (fun c => c <? 2 ^ 64) (ci_counts ci)) (in_counters inp).
 
 Definition all_xq (st : stats) : list xq :=
   column_of fastest st ++ column_of slowest st ++ column_of median st ++ column_of mean st.
